@@ -586,6 +586,15 @@ func judge(f transport, c C20Case) ev.Outcome {
 		o.Classes = append(o.Classes, "prefix_related_name")
 	}
 	o.Classes = append(o.Classes, nameLenClass(c.Ctr))
+	for _, fam := range families {
+		if a := app[fam]; a != nil && a.Ill == "" {
+			if n := len(a.Devices) + len(a.CDI) + len(a.Mounts) + len(a.Rlimits); n > 33 {
+				o.Classes = append(o.Classes, "listlen:over_33:"+fam)
+			} else if n >= 16 {
+				o.Classes = append(o.Classes, "listlen:16-33:"+fam)
+			}
+		}
+	}
 	if a := app[famMnt]; a != nil && a.Ill == "" {
 		optSep, fieldSep := false, false
 		for _, m := range a.Mounts {
@@ -1067,6 +1076,7 @@ func TestExh_C20(t *testing.T) {
 	r.SetExtra("repetition_sweep_cases", sweepRepetition(t, r))
 	r.SetExtra("many_names_sweep_requests", sweepManyNames(t, r))
 	r.SetExtra("concurrent_sweep_requests", sweepConcurrent(t, r))
+	r.SetExtra("long_list_sweep_requests", sweepLongLists(t, r))
 	r.SetExtra("exhaustive", false) // only the key-presence sub-domain is enumerated
 	r.SetExtra("exhaustive_subdomain", "per plugin option set (6) and key family (4), all 32 presence combinations of {container key for this container, for a prefix-named container, for an extension-named container, pod key, bare key}")
 }
@@ -1614,6 +1624,46 @@ func sweepManyNames(t *testing.T, r *ev.Recorder) int {
 		}
 		run(malformed("early-bad"), "many_names:return_visit")
 		run(malformedRlim("early-bad-rlim"), "many_names:return_visit")
+	}
+	return n
+}
+
+// sweepLongLists: lists of 1, 16, 32, 33, 34, 40, 100 and 300 distinct entries per kind (all 16
+// types for rlimits), in every scope that can apply and every writer style, with the plugins
+// at default verbosity and with -verbose: exactly the annotated entries must arrive.
+func sweepLongLists(t *testing.T, r *ev.Recorder) int {
+	const ctr = "c0"
+	n, turn := 0, 0
+	for _, opts := range []PluginOpts{{}, {InjVerbose: true, AdjVerbose: true}} {
+		for _, fam := range families {
+			for li, length := range []int{1, 16, 32, 33, 34, 40, 100, 300} {
+				if fam == famRlim && length > 16 {
+					continue
+				}
+				for si, scope := range []string{scopeCtr, scopePod, scopeBare} {
+					if fam == famRlim && scope != scopeCtr {
+						continue
+					}
+					a := Ann{Family: fam, Scope: scope, Style: []string{"block", "flow", "json"}[(li+si)%3]}
+					if scope == scopeCtr {
+						a.Target = ctr
+					}
+					a.fillLong(length, li)
+					a.Text = (&renderer{ch: cycleChooser{&turn}, style: a.Style}).render(a.node())
+					c := C20Case{Ctr: ctr, Opts: opts, Anns: []Ann{a}}
+					raw := ev.Snapshot(c)
+					r.Journal(raw)
+					o := runC20(c)
+					r.ClearJournal()
+					o.Classes = append(o.Classes, "sweep:long_lists")
+					r.Record(raw, o)
+					if o.Fail != "" {
+						t.Fatalf("C20: %s", o.Fail)
+					}
+					n++
+				}
+			}
+		}
 	}
 	return n
 }
